@@ -455,8 +455,12 @@ class P:
                 self.eat("."); k, name = self.eat()
                 if k == "num":
                     e = ("field", e, name); continue
-                if self.at("::"):      # turbofish
-                    raise ParseError("turbofish")
+                if self.at("::"):      # turbofish: the type arguments are skipped (they select nothing the embedding distinguishes)
+                    self.eat("::"); self.eat("<"); depth = 1
+                    while depth:
+                        kk, vv = self.eat()
+                        if vv == "<": depth += 1
+                        elif vv == ">": depth -= 1
                 if self.at("("):
                     e = ("mcall", e, name, self.args())
                 else:
@@ -497,8 +501,8 @@ class P:
                     return ("arrayrep", es[0], n)
                 if self.at(","): self.eat(",")
             self.eat("]"); return ("array", es)
-        if v == "unsafe" and self.peek(1)[1] == "{":
-            self.eat("unsafe"); return self.block()
+        if v in ("unsafe", "const") and self.peek(1)[1] == "{":
+            self.eat(v); return self.block()
         if v == "{":
             return self.block()
         if v == "<" and k == "op":
@@ -922,8 +926,11 @@ class Emitter:
             return "(%s %s %s)" % ("EAt" if self.vec_index else "EIndex", self.expr(e[1]), self.expr(e[2]))
         if k == "arrayrep":
             x = e[1]
+            if x[0] == "block" and not x[1] and x[2] is not None: x = x[2]        # [const { MaybeUninit::uninit() }; N]
             if x[0] == "call" and x[1][0] == "path" and x[1][1][-2:] == ["MaybeUninit", "uninit"] and not x[2]:
                 n = e[2]
+                if n[0] == "path" and len(n[1]) == 1 and n[1][0] in self.const_generics:
+                    return "(EArrUninit %s)" % self.const_generics[n[1][0]]
                 if n == ("path", ["N"]):
                     if not self.array_input: raise ParseError("const generic N without an iterated array field")
                     self.inputs.add(self.array_input)
@@ -1128,6 +1135,9 @@ class Emitter:
                     self.inputs.add(x[2])
                     return "(EVar %s)" % qs("get:" + x[2])
                 return self.expr(x)
+            if name == "read" and not args and recv[0] == "mcall" and recv[2] == "cast" and recv[1][0] == "mcall" and recv[1][2] == "as_ptr":
+                # slots.as_ptr().cast::<[T; N]>().read(): the whole array of MaybeUninit slots read as initialised
+                return "(EAssumeInitAll %s)" % self.expr(recv[1][1])
             if name in ("push_back", "push") and len(args) == 1:
                 return "(EPush %s false %s)" % (self.lval(recv), self.expr(args[0]))
             if name == "push_front" and len(args) == 1:
@@ -1235,6 +1245,10 @@ class Emitter:
             if len(pops) != 1: raise ParseError("while loop: cannot find the one collection it shrinks")
             fuel = "(EUs 1 (ELen %s) (ELit (VI 1)))" % self.expr(pops[0])
             return "(EWhile %s %s %s)" % (fuel, self.expr(e[1]), self.expr(e[2]))
+        if k == "for" and self.slot_fill(e):
+            # `for i in &mut slots { i.write(v); }` over a local array of MaybeUninit slots: every slot is overwritten
+            x, coll, v = self.slot_fill(e)
+            return "(EForMut %s (LVar %s) (ESeq (EAssign (LVar %s) %s) EUnit))" % (qs(x), qs(coll), qs(x), self.expr(v))
         if k == "for" and self.terminal_array(e[2]):
             # `for i in &self.inputs` over the device's own terminals.  A loop that only reads them (`i.borrow().get()`) runs over
             # what the terminals read (an input array, one entry per terminal); a loop that writes (`i.borrow_mut().set / update`)
@@ -1275,6 +1289,17 @@ class Emitter:
         for a, t in reversed(list(zip(args, tmps))):
             inner = "(ELet (PVar %s) %s %s)" % (qs(t), self.expr(a), inner)
         return inner
+
+    def slot_fill(self, e):
+        c = e[2]
+        while c[0] in ("unary", "paren"):
+            c = c[2] if c[0] == "unary" else c[1]
+        b = e[3]
+        if c[0] == "path" and len(c[1]) == 1 and b[0] == "block" and len(b[1]) == 1 and b[2] is None and b[1][0][0] == "expr":
+            st = b[1][0][1]
+            if st[0] == "mcall" and st[1] == ("path", [e[1]]) and st[2] == "write" and len(st[3]) == 1:
+                return e[1], c[1][0], st[3][0]
+        return None
 
     def find_pops(self, e):
         out = []
